@@ -9,6 +9,7 @@ import (
 
 	"github.com/feichai0017/NoKV/kv"
 	"github.com/feichai0017/NoKV/utils"
+	"github.com/feichai0017/NoKV/verifhook"
 	pkgerrors "github.com/pkg/errors"
 )
 
@@ -192,6 +193,7 @@ func (db *DB) sendToWriteCh(entries []*kv.Entry, waitOnThrottle bool) (*request,
 		commitReqPool.Put(cr)
 		return nil, err
 	}
+	verifhook.Yield(db, "db.write.enqueued")
 
 	return req, nil
 }
@@ -203,7 +205,9 @@ func (db *DB) batchSet(entries []*kv.Entry) error {
 		return err
 	}
 
-	return req.Wait()
+	err = req.Wait()
+	verifhook.Yield(db, "db.write.acked")
+	return err
 }
 
 func (db *DB) enqueueCommitRequest(cr *commitRequest) error {
@@ -333,6 +337,7 @@ func (db *DB) commitWorker() {
 		if batch == nil {
 			return
 		}
+		verifhook.Yield(db, "commit.batch.formed")
 		batch.batchStart = time.Now()
 		requests, totalEntries, totalSize, waitSum := db.collectCommitRequests(batch.reqs, batch.batchStart)
 		if len(requests) == 0 {
@@ -346,6 +351,7 @@ func (db *DB) commitWorker() {
 		}
 
 		err := db.vlog.write(requests)
+		verifhook.Yield(db, "commit.vlog.written")
 
 		if err != nil {
 			db.finishCommitRequests(batch.reqs, err, nil)
@@ -363,6 +369,7 @@ func (db *DB) commitWorker() {
 		if err == nil && db.opt.SyncWrites {
 			err = db.wal.Sync()
 		}
+		verifhook.Yield(db, "commit.applied")
 		if db.writeMetrics != nil {
 			totalDur := max(time.Since(batch.batchStart), 0)
 			applyDur := max(totalDur-batch.valueLogDur, 0)
